@@ -228,6 +228,20 @@ class Translator:
                 n = self.expr(args[0], [], [])
                 self.emit(ind, "%s = np.zeros(%s%s)" % (lhs_name, n, "" if "double" in lhs_type else ", np.int64"))
                 return
+            if f == "malloc":
+                # malloc(n * sizeof(T)): n uninitialised elements -> np.empty(n) (every read-before-write would be a read of an unconstrained value in the VCs)
+                a0 = args[0]
+                while a0.get("kind") in ("ImplicitCastExpr", "ParenExpr", "CStyleCastExpr"):
+                    a0 = a0["inner"][0]
+                if a0.get("kind") == "BinaryOperator" and a0.get("opcode") == "*":
+                    parts = a0["inner"]
+                    szs = [q for q in parts if "sizeof" in json.dumps(q)[:4000] and "UnaryExprOrTypeTraitExpr" in json.dumps(q)[:4000]]
+                    others = [q for q in parts if q not in szs]
+                    if len(szs) == 1 and len(others) == 1:
+                        n = self.expr(others[0], [], [])
+                        self.emit(ind, "%s = np.empty(%s%s)" % (lhs_name, n, "" if "double" in lhs_type else ", np.int64"))
+                        return
+                raise CUnsupported("malloc argument is not n * sizeof(T)")
             if f == "PyArray_DATA":
                 obj = self.expr(args[0], [], [])
                 if lhs_name in self.walkers:
